@@ -103,6 +103,113 @@ class LI:
         self.lv, self.fn, self.width = lv, fn, width
 
 
+class LF:
+    """an integer that is a function of ONE input lane (no carry): tab[x] for the 8 lane values, `width` bits, unsigned representation"""
+    __slots__ = ("lane", "tab", "width")
+
+    def __init__(self, lane, tab, width):
+        self.lane, self.tab, self.width = lane, tuple(tab), width
+
+
+class LS:
+    """const + sum over lanes of tab[lane][x]: a mathematical integer accumulated from per-digit contributions (child positions)"""
+    __slots__ = ("const", "lanes", "width")
+
+    def __init__(self, const, lanes, width=64):
+        self.const, self.lanes, self.width = const, dict(lanes), width
+
+    def rng(self, allowed):
+        lo = hi = self.const
+        for j, t in self.lanes.items():
+            vs = [t[x] for x in allowed[j]]
+            lo += min(vs); hi += max(vs)
+        return lo, hi
+
+
+def lv_single_lane(v):
+    """lane index if the chain-free LV is non-zero in exactly one lane, else None"""
+    if not isinstance(v, LV) or (v.chain is not None and v.depends_on_carry()):
+        return None
+    nz = [j for j in range(NL) if any(v.tab[j])]
+    return nz[0] if len(nz) == 1 else None
+
+
+def lv_to_lf(v):
+    j = lv_single_lane(v)
+    if j is None:
+        return None
+    tab = []
+    for x in range(8):
+        q = v.tab[j][x * 2] << (3 * j)
+        val = (q >> v.off) if v.off >= 0 else (q << -v.off)
+        tab.append(val & ((1 << v.width) - 1))
+    return LF(j, tab, v.width)
+
+
+def lf_atom(lf):
+    """atom 'the lane function is non-zero'"""
+    tab = [tuple(0 for _ in range(16)) for _ in range(NL)]
+    tab[lf.lane] = tuple((1 if lf.tab[x] else 0) for x in range(8) for _c in (0, 1))
+    return Atom("nz", LV(64, 0, tab))
+
+
+def same_value(a, b):
+    if a is b:
+        return True
+    if type(a) is not type(b):
+        return False
+    if isinstance(a, int):
+        return a == b
+    if isinstance(a, LV):
+        return a.off == b.off and a.width == b.width and a.tab == b.tab and a.chain is b.chain
+    if isinstance(a, LF):
+        return a.lane == b.lane and a.tab == b.tab and a.width == b.width
+    if isinstance(a, LS):
+        return a.const == b.const and a.lanes == b.lanes
+    if isinstance(a, tuple):
+        return a == b
+    return False
+
+
+def to_ls(v):
+    if isinstance(v, LS):
+        return v
+    if isinstance(v, int):
+        return LS(v, {})
+    if isinstance(v, LV):
+        v = lv_to_lf(v)
+    if isinstance(v, LF):
+        return LS(0, {v.lane: v.tab}, v.width)
+    return None
+
+
+def combine_lane(j, st, va, sf, vb, width):
+    """value that equals va when input lane j is in st and vb when it is in sf (if-conversion of a branch on lane j); None if not representable"""
+    if same_value(va, vb):
+        return va
+    la = lv_to_lf(va) if isinstance(va, LV) else va
+    lb = lv_to_lf(vb) if isinstance(vb, LV) else vb
+    def at(v, x):
+        if isinstance(v, int):
+            return v
+        if isinstance(v, LF) and v.lane == j:
+            return v.tab[x]
+        return None
+    if all(isinstance(v, int) or (isinstance(v, LF) and v.lane == j) for v in (la, lb)):
+        w = next((v.width for v in (la, lb) if isinstance(v, LF)), width or 64)
+        return LF(j, [(at(la, x) if x in st else (at(lb, x) if x in sf else 0)) for x in range(8)], w)
+    sa, sb = to_ls(la), to_ls(lb)
+    if sa is None or sb is None:
+        return None
+    for l in set(sa.lanes) | set(sb.lanes):
+        if l != j and sa.lanes.get(l, (0,) * 8) != sb.lanes.get(l, (0,) * 8):
+            return None
+    ta, tb = sa.lanes.get(j, (0,) * 8), sb.lanes.get(j, (0,) * 8)
+    lanes_ = dict(sb.lanes)
+    lanes_[j] = tuple(((sa.const - sb.const + ta[x]) if x in st else (tb[x] if x in sf else 0)) for x in range(8))
+    return LS(sb.const, lanes_)
+
+
 # ------------------------------------------------------------------ formulas over atoms
 class Atom:
     """kinds: 'nz' (lv): some lane output non-zero; 'top' (lv, fn): fn(highest set bit position|None) ; 'cmp' (lv, kh, pred);
@@ -258,6 +365,7 @@ class Evaluator:
         self.steps = 0
         self.lift = {}     # memo of lane-local liftings
         self._loc = 0
+        self.merge = False  # if-convert branches on one input lane (re-join the two sides at the post-dominator as lane functions)
         self.models = {}   # callee name -> fn(evaluator, args, allowed, inst) -> value: the callee's DOCUMENTED meaning (verified separately)
 
     # -- values: int | LV | LI | BI | ("ptr", base, byte offset) | ("gptr", operand) | ("gep", ...) | tuple aggregate ("agg", [...]) --
@@ -266,8 +374,32 @@ class Evaluator:
             c = v.concrete(allowed)
             if c is not None:
                 return c
+        if isinstance(v, BI) and v.f[0] != "c":
+            # atoms that the allowed input lanes already decide
+            ats = f_atoms(v.f, [])
+            sub = {}
+            for a in ats:
+                if a.kind == "nz" and (a.lv.chain is None or not a.lv.depends_on_carry()):
+                    if any(all(a.lv.tab[j][x * 2] for x in allowed[j]) for j in range(NL) if allowed[j]):
+                        sub[a] = True
+                    elif all(not a.lv.tab[j][x * 2] for j in range(NL) for x in allowed[j]):
+                        sub[a] = False
+            if sub:
+                v = BI(f_subst(v.f, sub), v.width)
         if isinstance(v, BI) and v.f[0] == "c":
             return 1 if v.f[1] else 0
+        if isinstance(v, LF):
+            vals = {v.tab[x] for x in allowed[v.lane]}
+            if len(vals) == 1:
+                return vals.pop()
+        if isinstance(v, LS):
+            c = v.const
+            for j, t in v.lanes.items():
+                vals = {t[x] for x in allowed[j]}
+                if len(vals) != 1:
+                    return v
+                c += vals.pop()
+            return c & ((1 << v.width) - 1)
         return v
 
     # -- type sizes (bytes) --
@@ -345,6 +477,8 @@ class Evaluator:
             out |= got << (8 * k)
         return out
 
+    PHIS_DONE = -2
+
     def run(self, fname, args, depth=0, mem=None, allowed=None, cond=None):
         """-> list of Path; args: list of values"""
         if depth > 8:
@@ -353,21 +487,132 @@ class Evaluator:
         if len(args) != len(f.args):
             raise Shape("%s: arity" % fname)
         allowed = allowed if allowed is not None else self.allowed
-        out = []
-        work = [(0, None, {}, cond if cond is not None else F_const(True), mem or {}, allowed)]   # block, pred, env, cond, mem, allowed
+        out, _arr = self._explore(f, args, depth, [(0, None, {}, cond if cond is not None else F_const(True), mem or {}, allowed)], None)
+        return out
+
+    def _ipdom(self, f):
+        """immediate post-dominators (block -> block | None), virtual exit = -1"""
+        c = getattr(f, "_ipdom_cache", None)
+        if c is not None:
+            return c
+        n = len(f.blocks)
+        succs = {b.idx: (list(dict.fromkeys(b.succs())) or [-1]) for b in f.blocks}
+        for b in f.blocks:
+            if b.term.op in ("ret", "unreachable"):
+                succs[b.idx] = [-1]
+        full = set(range(n)) | {-1}
+        pd = {b: set(full) for b in range(n)}
+        pd[-1] = {-1}
+        changed = True
+        while changed:
+            changed = False
+            for b in range(n):
+                new = set(full)
+                for s_ in succs[b]:
+                    new &= pd[s_]
+                new |= {b}
+                if new != pd[b]:
+                    pd[b] = new
+                    changed = True
+        ip = {}
+        for b in range(n):
+            cands = pd[b] - {b}
+            best = None
+            for c_ in cands:
+                # the immediate one is post-dominated by every other candidate
+                if all((o == c_) or (o in pd.get(c_, {-1})) for o in cands):
+                    best = c_
+            ip[b] = best if best is not None and best >= 0 else None
+        f._ipdom_cache = ip
+        return ip
+
+    def _phis(self, f, bidx, pred, env, args):
+        b = f.blocks[bidx]
+        newv = {}
+        for p in b.phis():
+            for o, inc in zip(p.ops, p.d["inc"]):
+                if inc == pred:
+                    newv[p.id] = self.val(f, o, env, args)
+                    break
+            else:
+                raise Shape("%s: phi without matching incoming edge" % f.name)
+        if newv:
+            env = dict(env)
+            env.update(newv)
+        return env
+
+    def _lane_partition(self, cv, al):
+        """(lane, true literal, values for which the condition holds, values for which it does not) when the condition depends on ONE input lane"""
+        lf = cv if isinstance(cv, LF) else self.bi_to_lf(cv)
+        if lf is None:
+            return None
+        j = lf.lane
+        st = [x for x in al[j] if lf.tab[x] & 1]
+        sf = [x for x in al[j] if not (lf.tab[x] & 1)]
+        lit = cv.f if isinstance(cv, BI) else F_atom(lf_atom(LF(j, [v & 1 for v in lf.tab], 1)))
+        return j, lit, st, sf
+
+    def bi_to_lf(self, v):
+        if not isinstance(v, BI):
+            return None
+        f_ = v.f
+        neg = f_[0] == "n"
+        a = f_[1] if neg else f_
+        if a[0] != "a" or a[1].kind != "nz":
+            return None
+        lv = a[1].lv
+        j = lv_single_lane(lv)
+        if j is None:
+            return None
+        return LF(j, [int((lv.tab[j][x * 2] != 0) != neg) for x in range(8)], 1)
+
+    def _merge(self, f, j, A, st, B, sf, c, al, litA, litB):
+        envA, condA, memA, alA = A
+        envB, condB, memB, alB = B
+        if condA != F_and(c, litA) or condB != F_and(c, litB):
+            return None         # further conditions were added inside a side
+        for l in range(NL):
+            if l != j and alA[l] != alB[l]:
+                return None
+        env = {}
+        for k in envA.keys() & envB.keys():
+            ty = f.insts[k].type if k in f.insts else ""
+            w = int(ty[1:]) if ty.startswith("i") and ty[1:].isdigit() else None
+            v = combine_lane(j, st, envA[k], sf, envB[k], w)
+            if v is None:
+                return None
+            env[k] = v
+        if memA.keys() != memB.keys():
+            return None
+        mem = {}
+        for k in memA:
+            (va, sa), (vb, sb) = memA[k], memB[k]
+            if sa != sb:
+                return None
+            v = combine_lane(j, st, va, sf, vb, sa * 8)
+            if v is None:
+                return None
+            mem[k] = (v, sa)
+        nal = list(alA)
+        nal[j] = sorted(set(st) | set(sf))
+        return (env, c, mem, nal)
+
+    def _explore(self, f, args, depth, work, stop):
+        """explores from the work items until the block `stop` (exclusive; None = to the returns).
+        -> (finished Paths, arrivals at stop as (env with stop's phis applied, cond, mem, allowed))"""
+        fname = f.name
+        out, arrivals = [], []
+
+        def go(dest, pred, e, c, s, al):
+            if dest == stop:
+                arrivals.append((self._phis(f, dest, pred, e, args), c, s, al))
+            else:
+                work.append((dest, pred, e, c, s, al))
         while work:
             bidx, pred, env, cond, mem, alw = work.pop()
             b = f.blocks[bidx]
-            newv = {}
-            for p in b.phis():
-                for o, inc in zip(p.ops, p.d["inc"]):
-                    if inc == pred:
-                        newv[p.id] = self.val(f, o, env, args)
-                        break
-                else:
-                    raise Shape("%s: phi without matching incoming edge" % fname)
-            env = dict(env)
-            env.update(newv)
+            if pred != self.PHIS_DONE and pred is not None:
+                env = self._phis(f, bidx, pred, env, args)
             pend = [(env, cond, mem, alw)]
             for inst in b.insts:
                 if inst.op == "phi":
@@ -378,8 +623,8 @@ class Evaluator:
                 if inst is b.term:
                     break
                 nxt = []
-                for st in pend:
-                    nxt += self.step(f, inst, st, args, depth)
+                for st_ in pend:
+                    nxt += self.step(f, inst, st_, args, depth)
                 pend = nxt
                 if len(pend) + len(work) + len(out) > self.max_paths:
                     raise Shape("%s: more than %d paths" % (fname, self.max_paths))
@@ -390,26 +635,64 @@ class Evaluator:
                     out.append(Path(c, rv, s, al))
                 elif t.op == "br":
                     if len(t.ops) == 1:
-                        work.append((t.ops[0][1], bidx, e, c, s, al))
+                        go(t.ops[0][1], bidx, e, c, s, al)
+                        continue
+                    cv = self.norm(self.val(f, t.ops[0], e, args), al)
+                    tb, fb = t.succs()
+                    if isinstance(cv, int):
+                        go(tb if cv & 1 else fb, bidx, e, c, s, al)
+                        continue
+                    part = self._lane_partition(cv, al) if isinstance(cv, LF) or (self.merge and isinstance(cv, BI)) else None
+                    if part is not None:
+                        j, lit, st_, sf_ = part
+                        J = self._ipdom(f).get(bidx) if self.merge else None
+                        sides = []
+                        for dest, l_, S in ((tb, lit, st_), (fb, F_not(lit), sf_)):
+                            if not S:
+                                continue
+                            cc = F_and(c, l_)
+                            if f_contradictory(cc):
+                                continue
+                            al2 = list(al)
+                            al2[j] = S
+                            if J is None:
+                                go(dest, bidx, e, cc, s, al2)
+                            elif dest == J:
+                                sides.append(([], [(self._phis(f, J, bidx, e, args), cc, s, al2)], l_, S))
+                            else:
+                                o2, a2 = self._explore(f, args, depth, [(dest, bidx, e, cc, s, al2)], J)
+                                sides.append((o2, a2, l_, S))
+                        if J is None:
+                            continue
+                        arr = []
+                        for o2, a2, _l, _S in sides:
+                            out.extend(o2)
+                            arr.extend(a2)
+                        if len(sides) == 2 and not sides[0][0] and not sides[1][0] and len(sides[0][1]) == 1 and len(sides[1][1]) == 1:
+                            mg = self._merge(f, j, sides[0][1][0], sides[0][3], sides[1][1][0], sides[1][3], c, al, sides[0][2], sides[1][2])
+                            if mg is not None:
+                                arr = [mg]
+                        for (e2, c2, s2, al2) in arr:
+                            if J == stop:
+                                arrivals.append((e2, c2, s2, al2))
+                            else:
+                                work.append((J, self.PHIS_DONE, e2, c2, s2, al2))
+                    elif isinstance(cv, BI):
+                        for dest, lit in ((tb, cv.f), (fb, F_not(cv.f))):
+                            cc = F_and(c, lit)
+                            if f_contradictory(cc):
+                                continue
+                            al2 = self.refine(al, lit)
+                            if al2 is None:
+                                continue
+                            go(dest, bidx, e, cc, s, al2)
                     else:
-                        cv = self.norm(self.val(f, t.ops[0], e, args), al)
-                        tb, fb = t.succs()
-                        if isinstance(cv, int):
-                            work.append((tb if cv & 1 else fb, bidx, e, c, s, al))
-                        elif isinstance(cv, BI):
-                            for dest, lit in ((tb, cv.f), (fb, F_not(cv.f))):
-                                cc = F_and(c, lit)
-                                if f_contradictory(cc):
-                                    continue
-                                al2 = self.refine(al, lit)
-                                if al2 is None:
-                                    continue
-                                work.append((dest, bidx, e, cc, s, al2))
-                        else:
-                            raise Shape("%s: branch on an uninterpreted value at %s" % (fname, t.where()))
+                        raise Shape("%s: branch on an uninterpreted value at %s" % (fname, t.where()))
                 elif t.op == "switch":
                     cv = self.norm(self.val(f, t.ops[0], e, args), al)
                     w = _width(self._type_of(f, t.ops[0]))
+                    if isinstance(cv, LF):
+                        raise Shape("%s: switch on a lane function at %s" % (fname, t.where()))
                     if isinstance(cv, LV):
                         # fork: one path per case value, and the default with every case excluded
                         rest_c, rest_al = c, al
@@ -417,21 +700,21 @@ class Evaluator:
                             eq = self.norm(self.icmp("eq", cv, cvv & ((1 << w) - 1), w, t), rest_al)
                             if isinstance(eq, int):
                                 if eq:
-                                    work.append((d, bidx, e, rest_c, s, rest_al))
+                                    go(d, bidx, e, rest_c, s, rest_al)
                                     rest_al = None
                                     break
                                 continue
                             cc = F_and(rest_c, eq.f)
                             al2 = self.refine(rest_al, eq.f)
                             if al2 is not None and not f_contradictory(cc):
-                                work.append((d, bidx, e, cc, s, al2))
+                                go(d, bidx, e, cc, s, al2)
                             rest_c = F_and(rest_c, F_not(eq.f))
                             rest_al = self.refine(rest_al, F_not(eq.f))
                             if rest_al is None or f_contradictory(rest_c):
                                 rest_al = None
                                 break
                         if rest_al is not None:
-                            work.append((t.d["default"], bidx, e, rest_c, s, rest_al))
+                            go(t.d["default"], bidx, e, rest_c, s, rest_al)
                         continue
                     if not isinstance(cv, int):
                         raise Shape("%s: switch on a value that depends on the index at %s" % (fname, t.where()))
@@ -439,14 +722,14 @@ class Evaluator:
                     for cvv, d in t.d["cases"]:
                         if (cvv & ((1 << w) - 1)) == cv:
                             dest = d
-                    work.append((dest, bidx, e, c, s, al))
+                    go(dest, bidx, e, c, s, al)
                 elif t.op == "unreachable":
                     pass
                 else:
                     raise Shape("%s: terminator %s" % (fname, t.op))
                 if len(work) + len(out) > self.max_paths:
                     raise Shape("%s: more than %d paths" % (fname, self.max_paths))
-        return out
+        return out, arrivals
 
     def refine(self, allowed, lit):
         """a branch literal over ONE input lane (no carry) restricts the allowed values of that lane; None = infeasible"""
@@ -592,7 +875,7 @@ class Evaluator:
         if op == "icmp":
             a, b = g(0), g(1)
             w = _width(self._type_of(f, inst.ops[0])) if not self._type_of(f, inst.ops[0]).endswith("*") else 64
-            return self.icmp(inst.pred, a, b, w, inst)
+            return self.icmp(inst.pred, a, b, w, inst, al)
         if op in ("zext", "trunc", "sext"):
             a = g(0)
             w = _width(inst.type)
@@ -618,11 +901,32 @@ class Evaluator:
                 if op == "sext":
                     return LI(a.lv, (lambda p, fn=a.fn, sw=sw, w=w: _s(fn(p), sw) & ((1 << w) - 1)), w)
                 return LI(a.lv, (lambda p, fn=a.fn, w=w: fn(p) & ((1 << w) - 1)), w)
+            if isinstance(a, LF):
+                if op == "sext":
+                    return LF(a.lane, [_s(t & ((1 << sw) - 1), sw) & ((1 << w) - 1) for t in a.tab], w)
+                return LF(a.lane, [t & ((1 << min(w, sw)) - 1) for t in a.tab], w)
+            if isinstance(a, LS):
+                lo, hi = a.rng(al)
+                if op in ("sext", "zext") and (op == "sext" or lo >= 0):
+                    return LS(a.const, a.lanes, w)
+                if op == "trunc" and -(1 << (w - 1)) <= lo and hi < (1 << (w - 1)):
+                    return LS(a.const, a.lanes, w)
+                raise Shape("cast of a sum of digit contributions outside its range at %s" % inst.where())
             raise Shape("cast of uninterpreted value")
         if op == "select":
             c, a, b = g(0), g(1), g(2)
             if isinstance(c, int):
                 return a if c & 1 else b
+            cl = c if isinstance(c, LF) else self.bi_to_lf(c)
+            if cl is not None and not (isinstance(a, BI) or isinstance(b, BI)):
+                la = lv_to_lf(a) if isinstance(a, LV) else a
+                lb = lv_to_lf(b) if isinstance(b, LV) else b
+                if all(isinstance(v, int) or (isinstance(v, LF) and v.lane == cl.lane) for v in (la, lb)):
+                    w = _width(inst.type)
+                    at = lambda v, x: v if isinstance(v, int) else v.tab[x]
+                    return LF(cl.lane, [(at(la, x) if cl.tab[x] & 1 else at(lb, x)) & ((1 << w) - 1) for x in range(8)], w)
+            if isinstance(c, LF):
+                c = BI(F_atom(lf_atom(c)), 1)
             if isinstance(c, BI):
                 fa = self.as_formula(a)
                 fb = self.as_formula(b)
@@ -702,14 +1006,67 @@ class Evaluator:
             return None
         if isinstance(v, BI):
             return v.f
+        if isinstance(v, LF):
+            return F_atom(lf_atom(v))
         return None
+
+    ARITH_ONLY = ("mul", "sdiv", "udiv", "srem", "urem", "ashr")
+
+    def _lfable(self, v, op):
+        """single-lane chain-free LV that the lane-table path cannot treat (shifted, or an operator it lacks)"""
+        return isinstance(v, LV) and lv_single_lane(v) is not None and (op in self.ARITH_ONLY or (op in ("add", "sub") and v.off != 0))
+
+    def lf_binop(self, op, a, b, w, inst):
+        def cv(v):
+            if isinstance(v, LV):
+                r = lv_to_lf(v)
+                if r is None:
+                    raise Shape("arithmetic mixes a digit function with a multi-lane value at %s" % inst.where())
+                return r
+            if isinstance(v, BI):
+                r = self.bi_to_lf(v)
+                if r is None:
+                    raise Shape("arithmetic on a multi-lane condition at %s" % inst.where())
+                return r
+            return v
+        a, b = cv(a), cv(b)
+        if isinstance(a, (int, LF)) and isinstance(b, (int, LF)) and not (isinstance(a, LF) and isinstance(b, LF) and a.lane != b.lane):
+            j = a.lane if isinstance(a, LF) else b.lane
+            at = lambda v, x: v if isinstance(v, int) else v.tab[x]
+            return LF(j, [self.cbin(op, at(a, x) & ((1 << w) - 1), at(b, x) & ((1 << w) - 1), w) for x in range(8)], w)
+        # sums of contributions of different lanes: mathematical integers (signed interpretation of the operands)
+        def sg(v):
+            if isinstance(v, int):
+                return LS(_s(v & ((1 << w) - 1), w), {}, w)
+            if isinstance(v, LF):
+                return LS(0, {v.lane: tuple(_s(t & ((1 << v.width) - 1), v.width) for t in v.tab)}, w)
+            if isinstance(v, LS):
+                return v
+            raise Shape("unsupported operand in a digit sum at %s" % inst.where())
+        if op in ("add", "sub"):
+            x, y = sg(a), sg(b)
+            sgn = 1 if op == "add" else -1
+            lanes_ = dict(x.lanes)
+            for l, t in y.lanes.items():
+                o = lanes_.get(l, (0,) * 8)
+                lanes_[l] = tuple(p_ + sgn * q_ for p_, q_ in zip(o, t))
+            return LS(x.const + sgn * y.const, lanes_, w)
+        if op == "mul" and (isinstance(a, int) or isinstance(b, int)):
+            k, v = (a, b) if isinstance(a, int) else (b, a)
+            k = _s(k & ((1 << w) - 1), w)
+            v = sg(v)
+            return LS(v.const * k, {l: tuple(t_ * k for t_ in t) for l, t in v.lanes.items()}, w)
+        raise Shape("%s on a sum of digit contributions at %s" % (op, inst.where()))
 
     def binop(self, op, a, b, w, inst, al=None):
         mask = (1 << w) - 1
         if isinstance(a, int) and isinstance(b, int):
             return self.cbin(op, a, b, w)
+        if isinstance(a, (LF, LS)) or isinstance(b, (LF, LS)) or \
+                (self._lfable(a, op) and (isinstance(b, int) or self._lfable(b, op))) or (self._lfable(b, op) and isinstance(a, int)):
+            return self.lf_binop(op, a, b, w, inst)
         # formulas (i1 logic, or 0/1 integers)
-        if isinstance(a, BI) or isinstance(b, BI):
+        if (isinstance(a, BI) or isinstance(b, BI)) and not (isinstance(a, (LF, LS)) or isinstance(b, (LF, LS))):
             fa, fb = self.as_formula(a), self.as_formula(b)
             if fa is not None and fb is not None and op in ("and", "or", "xor"):
                 return BI({"and": F_and, "or": F_or, "xor": F_xor}[op](fa, fb), w)
@@ -812,9 +1169,38 @@ class Evaluator:
             return (q if op == "sdiv" else sa - q * sb) & mask
         raise Shape("integer op " + op)
 
-    def icmp(self, pred, a, b, w, inst):
+    def icmp(self, pred, a, b, w, inst, al=None):
         if isinstance(a, int) and isinstance(b, int):
             return 1 if _icmp(pred, a, b, w) else 0
+        if isinstance(a, (LF, LS)) or isinstance(b, (LF, LS)):
+            if isinstance(a, LS) or isinstance(b, LS):
+                d = self.lf_binop("sub", a, b, w, inst)
+                lo, hi = d.rng(al if al is not None else self.allowed)
+                # the operands are mathematical integers here: decide by the range of the difference
+                if not (-(1 << (w - 1)) <= lo and hi < (1 << (w - 1))):
+                    raise Shape("a sum of digit contributions may leave the %d-bit range at %s" % (w, inst.where()))
+                if pred.startswith("u") and pred not in ("eq", "ne"):
+                    raise Shape("unsigned order on a sum of digit contributions at %s" % inst.where())
+                res = {"eq": (lo == hi == 0, lo > 0 or hi < 0), "ne": (lo > 0 or hi < 0, lo == hi == 0), "slt": (hi < 0, lo >= 0), "sle": (hi <= 0, lo > 0),
+                       "sgt": (lo > 0, hi <= 0), "sge": (lo >= 0, hi < 0)}[pred]
+                if res[0]:
+                    return 1
+                if res[1]:
+                    return 0
+                raise Shape("comparison of a sum of digit contributions is not decided by its range at %s" % inst.where())
+            def cv(v):
+                if isinstance(v, LV):
+                    r = lv_to_lf(v)
+                    if r is None:
+                        raise Shape("comparison mixes a digit function with a multi-lane value at %s" % inst.where())
+                    return r
+                return v
+            a, b = cv(a), cv(b)
+            if isinstance(a, LF) and isinstance(b, LF) and a.lane != b.lane:
+                raise Shape("comparison of two different digits at %s" % inst.where())
+            j = a.lane if isinstance(a, LF) else b.lane
+            at = lambda v, x: (v if isinstance(v, int) else v.tab[x]) & ((1 << w) - 1)
+            return LF(j, [1 if _icmp(pred, at(a, x), at(b, x), w) else 0 for x in range(8)], 1)
         if isinstance(b, (LV, LI, BI)) and isinstance(a, int):
             a, b = b, a
             pred = {"ult": "ugt", "ugt": "ult", "ule": "uge", "uge": "ule", "slt": "sgt", "sgt": "slt", "sle": "sge", "sge": "sle"}.get(pred, pred)
